@@ -884,8 +884,6 @@ package consensus
 // overflow are established by the overflow pre-check that runs first; that step is NOT proved
 // here (the pre-checks have no functional contract yet): those call-site obligations are
 // reported as undecided.
-//@ func validateV2CurrencyOverflow
-//@   abstract
 //@ func validateArbitraryData
 //@   abstract
 
@@ -919,3 +917,70 @@ package consensus
 //@   requires @existing-contracts-well-formed forall i in 0..len(txn.FileContractRevisions) :: ms.fileContractElement(ts, txn.FileContractRevisions[i].ParentID).1 ==> v1fcSumsOK(ms.fileContractElement(ts, txn.FileContractRevisions[i].ParentID).0.FileContract)
 //@   ensures @runs-every-validator result == nil ==> cheight(ms.base) < ms.base.Network.HardforkV2.RequireHeight && validateCurrencyOverflow(ms, txn) == nil && validateMinimumValues(ms, txn) == nil && validateSiacoins(ms, txn, ts) == nil && validateSiafunds(ms, txn, ts) == nil && validateFileContracts(ms, txn, ts) == nil && validateArbitraryData(ms, txn) == nil && validateSignatures(ms, txn) == nil
 //@   ensures @weight result == nil ==> ms.base.TransactionWeight(txn) <= ms.base.MaxBlockWeight()
+
+// ------------------------------------------------------------ validation.go: the v2 overflow pre-check (functional contract)
+// What validateV2CurrencyOverflow establishes, in the form the v2 validators assume it.
+//@ spec c4(fc types.V2FileContract) int = types.u128(fc.RenterOutput.Value) + types.u128(fc.HostOutput.Value) + types.u128(fc.MissedHostValue) + types.u128(fc.TotalCollateral) + tax(fc)
+//@ spec rec sumC4(fcs []types.V2FileContract, n int) int = n <= 0 ? 0 : sumC4(fcs, n-1) + c4(fcs[n-1])
+//@ spec rec sumRevC4(revs []types.V2FileContractRevision, n int) int = n <= 0 ? 0 : sumRevC4(revs, n-1) + c4(revs[n-1].Revision)
+//@ spec renAll(r types.V2FileContractRenewal) int = c4(r.NewContract) + types.u128(r.FinalRenterOutput.Value) + types.u128(r.FinalHostOutput.Value) + types.u128(r.RenterRollover) + types.u128(r.HostRollover)
+//@ spec resAll(res types.V2FileContractResolution) int = isa(res.Resolution, V2FileContractRenewal) ? renAll(asa(res.Resolution, V2FileContractRenewal)) : 0
+//@ spec rec sumResAll(rs []types.V2FileContractResolution, n int) int = n <= 0 ? 0 : sumResAll(rs, n-1) + resAll(rs[n-1])
+//@ spec SOL2(txn types.V2Transaction) int = sumSCO(txn.SiacoinOutputs, len(txn.SiacoinOutputs))
+//@ spec rhOK(fc types.V2FileContract) bool = types.u128(fc.RenterOutput.Value) + types.u128(fc.HostOutput.Value) < types.M128
+//@ spec renOK(r types.V2FileContractRenewal) bool = rhOK(r.NewContract) && types.u128(r.FinalRenterOutput.Value) + types.u128(r.RenterRollover) + types.u128(r.FinalHostOutput.Value) + types.u128(r.HostRollover) < types.M128 && types.u128(r.NewContract.RenterOutput.Value) + types.u128(r.NewContract.HostOutput.Value) + tax(r.NewContract) < types.M128
+//@ spec fcsRH(txn types.V2Transaction, n int) bool = forall i in 0..n :: rhOK(txn.FileContracts[i])
+//@ spec revsRH(txn types.V2Transaction, n int) bool = forall i in 0..n :: rhOK(txn.FileContractRevisions[i].Revision)
+//@ spec ressOK(txn types.V2Transaction, n int) bool = forall i in 0..n :: isa(txn.FileContractResolutions[i].Resolution, V2FileContractRenewal) ==> renOK(asa(txn.FileContractResolutions[i].Resolution, V2FileContractRenewal))
+//@ spec g5(s State, txn types.V2Transaction, n int) bool = forall i in 0..n+1 :: sumV2FC(s, txn.FileContracts, i) <= sumC4(txn.FileContracts, n)
+//@ spec g7(s State, txn types.V2Transaction, n int) bool = forall i in 0..n+1 :: sumRenewalCost(s, txn.FileContractResolutions, i) <= sumResAll(txn.FileContractResolutions, n)
+
+//@ func validateV2CurrencyOverflow
+//@   abstract
+//@   pure
+//@   prop C09
+//@   prop C10 C01
+//@   requires ms.base.Network != nil
+//@   requires @decoded-txn-has-resolutions forall j in 0..len(txn.FileContractResolutions) :: !isnil(txn.FileContractResolutions[j].Resolution)
+//@   invariant loop#1 @sum !overflow ==> types.u128(sum) == sumSCO(txn.SiacoinOutputs, $n)
+//@   invariant loop#1 @nn sumSCO(txn.SiacoinOutputs, $n) >= 0
+//@   invariant loop#1 @pref !overflow ==> prefOK(txn.SiacoinOutputs, $n)
+//@   invariant loop#2 @sum !overflow ==> types.u128(sum) == SOL2(txn)
+//@   invariant loop#2 @c-nn SOL2(txn) >= 0
+//@   invariant loop#2 @c-pref !overflow ==> prefOK(txn.SiacoinOutputs, len(txn.SiacoinOutputs))
+//@   invariant loop#2 @sf !overflow ==> forall j in 0..$n :: txn.SiafundOutputs[j].Value <= 10000
+//@   invariant loop#3 @sum !overflow ==> types.u128(sum) == SOL2(txn) + sumC4(txn.FileContracts, $n)
+//@   invariant loop#3 @c-nn SOL2(txn) >= 0
+//@   invariant loop#3 @c-pref !overflow ==> prefOK(txn.SiacoinOutputs, len(txn.SiacoinOutputs))
+//@   invariant loop#3 @c-sf !overflow ==> forall j in 0..len(txn.SiafundOutputs) :: txn.SiafundOutputs[j].Value <= 10000
+//@   invariant loop#3 @nn3 sumC4(txn.FileContracts, $n) >= 0
+//@   invariant loop#3 @g5 g5(ms.base, txn, $n)
+//@   invariant loop#3 @rh !overflow ==> fcsRH(txn, $n)
+//@   invariant loop#4 @sum !overflow ==> types.u128(sum) == SOL2(txn) + sumC4(txn.FileContracts, len(txn.FileContracts)) + sumRevC4(txn.FileContractRevisions, $n)
+//@   invariant loop#4 @c-nn SOL2(txn) >= 0
+//@   invariant loop#4 @c-pref !overflow ==> prefOK(txn.SiacoinOutputs, len(txn.SiacoinOutputs))
+//@   invariant loop#4 @c-sf !overflow ==> forall j in 0..len(txn.SiafundOutputs) :: txn.SiafundOutputs[j].Value <= 10000
+//@   invariant loop#4 @c-nn3 sumC4(txn.FileContracts, len(txn.FileContracts)) >= 0
+//@   invariant loop#4 @c-g5 g5(ms.base, txn, len(txn.FileContracts))
+//@   invariant loop#4 @c-rh !overflow ==> fcsRH(txn, len(txn.FileContracts))
+//@   invariant loop#4 @nn4 sumRevC4(txn.FileContractRevisions, $n) >= 0
+//@   invariant loop#4 @revrh !overflow ==> revsRH(txn, $n)
+//@   invariant loop#5 @sum !overflow ==> types.u128(sum) == SOL2(txn) + sumC4(txn.FileContracts, len(txn.FileContracts)) + sumRevC4(txn.FileContractRevisions, len(txn.FileContractRevisions)) + sumResAll(txn.FileContractResolutions, $n)
+//@   invariant loop#5 @c-nn SOL2(txn) >= 0
+//@   invariant loop#5 @c-pref !overflow ==> prefOK(txn.SiacoinOutputs, len(txn.SiacoinOutputs))
+//@   invariant loop#5 @c-sf !overflow ==> forall j in 0..len(txn.SiafundOutputs) :: txn.SiafundOutputs[j].Value <= 10000
+//@   invariant loop#5 @c-nn3 sumC4(txn.FileContracts, len(txn.FileContracts)) >= 0
+//@   invariant loop#5 @c-g5 g5(ms.base, txn, len(txn.FileContracts))
+//@   invariant loop#5 @c-rh !overflow ==> fcsRH(txn, len(txn.FileContracts))
+//@   invariant loop#5 @c-nn4 sumRevC4(txn.FileContractRevisions, len(txn.FileContractRevisions)) >= 0
+//@   invariant loop#5 @c-revrh !overflow ==> revsRH(txn, len(txn.FileContractRevisions))
+//@   invariant loop#5 @nn5 sumResAll(txn.FileContractResolutions, $n) >= 0
+//@   invariant loop#5 @g7 g7(ms.base, txn, $n)
+//@   invariant loop#5 @res !overflow ==> ressOK(txn, $n)
+//@   ensures @V3-output-prefixes result == nil ==> prefOK(txn.SiacoinOutputs, len(txn.SiacoinOutputs))
+//@   ensures @V0-siafund-values result == nil ==> forall j in 0..len(txn.SiafundOutputs) :: txn.SiafundOutputs[j].Value <= 10000
+//@   ensures @V4-contract-outputs result == nil ==> fcsRH(txn, len(txn.FileContracts))
+//@   ensures @V4-revision-outputs result == nil ==> revsRH(txn, len(txn.FileContractRevisions))
+//@   ensures @V6-renewals result == nil ==> ressOK(txn, len(txn.FileContractResolutions))
+//@   ensures @V5-contract-cost-prefixes result == nil ==> forall i in 0..len(txn.FileContracts)+1 :: SOL2(txn) + sumV2FC(ms.base, txn.FileContracts, i) < types.M128
+//@   ensures @V7-total-prefixes result == nil ==> forall i in 0..len(txn.FileContractResolutions)+1 :: SOL2(txn) + sumV2FC(ms.base, txn.FileContracts, len(txn.FileContracts)) + sumRenewalCost(ms.base, txn.FileContractResolutions, i) + types.u128(txn.MinerFee) < types.M128
